@@ -143,6 +143,7 @@ var varCoq = map[string]string{
 	"REQUEST_URI": "VReqUri", "REQUEST_METHOD": "VReqMethod", "QUERY_STRING": "VQueryString",
 	"MATCHED_VAR": "VMatchedVar", "ARGS_COMBINED_SIZE": "VArgsCombinedSize",
 	"MATCHED_VAR_NAME": "VMatchedVarName", "MATCHED_VARS": "VMatchedVars", "MATCHED_VARS_NAMES": "VMatchedVarsNames",
+	"FILES_COMBINED_SIZE": "VFilesCombinedSize",
 }
 
 var keyedVars = []string{"ARGS", "ARGS_GET", "ARGS_POST", "ARGS_NAMES", "ARGS_GET_NAMES", "ARGS_POST_NAMES",
@@ -1200,6 +1201,63 @@ func genRemovalRules(r *rand.Rand, q *Request) ([]Rule, []Removal) {
 	return rules, rms
 }
 
+// size / count focused rule sets.  Parameter NAMES with invalid UTF-8 bytes and with letters whose
+// lower-case form has another UTF-8 length (Go groups such entries under a map key of another length):
+// only grouping-invariant targets are used - ARGS_COMBINED_SIZE, FILES_COMBINED_SIZE, the '&' counts and
+// keyless collections - with thresholds around the true value (true-1, true, true+1).
+var oddNames = []string{"\xff", "a\xff", "\xfe\xff", "\xe2\x84\xaa", "\xc4\xb0", "\xe1\xba\x9e", "\xc8\xba", "K\xc3\x89", "\xc3", "a", "A", "b", "", "a-b"}
+
+func genSizeCase(r *rand.Rand) ([]Rule, *Request) {
+	q := &Request{Method: pick(r, []string{"GET", "POST"}), Path: "/p"}
+	vals := []string{"x", "", "abc", "\xff", "a b", "1", "\xe2\x84\xaa"}
+	q.Get = genPairs(r, 1+r.Intn(4), oddNames, vals)
+	q.Post = genPairs(r, r.Intn(4), oddNames, vals)
+	size := func(ps [][2]string) int {
+		n := 0
+		for _, p := range ps {
+			n += len(unhx(p[0])) + len(unhx(p[1]))
+		}
+		return n
+	}
+	var rules []Rule
+	n := 2 + r.Intn(3)
+	for id := 1; id <= n; id++ {
+		ph := 1 + r.Intn(2)
+		truth := size(q.Get)
+		cnt := map[string]int{"ARGS": len(q.Get), "ARGS_GET": len(q.Get), "ARGS_POST": 0, "ARGS_NAMES": len(q.Get), "ARGS_GET_NAMES": len(q.Get), "ARGS_POST_NAMES": 0}
+		if ph == 2 {
+			truth += size(q.Post)
+			for _, k := range []string{"ARGS", "ARGS_NAMES"} {
+				cnt[k] += len(q.Post)
+			}
+			cnt["ARGS_POST"], cnt["ARGS_POST_NAMES"] = len(q.Post), len(q.Post)
+		}
+		var l Link
+		switch r.Intn(6) {
+		case 0, 1, 2: // ARGS_COMBINED_SIZE against a threshold around the true value
+			t := truth + r.Intn(3) - 1
+			l = Link{Items: []Item{{Var: "ARGS_COMBINED_SIZE", Sel: Sel{Kind: "all"}}}, Op: pick(r, []string{"eq", "gt", "streq"}), ArgHex: hx(fmt.Sprint(t)), Neg: r.Intn(4) == 0}
+		case 3: // a count against a threshold around the true count
+			v := pick(r, []string{"ARGS", "ARGS_GET", "ARGS_POST", "ARGS_NAMES", "ARGS_GET_NAMES", "ARGS_POST_NAMES"})
+			t := cnt[v] + r.Intn(3) - 1
+			l = Link{Items: []Item{{Var: v, Count: true, Sel: Sel{Kind: "all"}}}, Op: pick(r, []string{"eq", "gt"}), ArgHex: hx(fmt.Sprint(t))}
+		case 4:
+			l = Link{Items: []Item{{Var: pick(r, []string{"FILES_COMBINED_SIZE", "ARGS_COMBINED_SIZE"}), Count: r.Intn(2) == 0, Sel: Sel{Kind: "all"}}}, Op: "eq", ArgHex: hx(pick(r, []string{"0", "1"}))}
+		default: // keyless collections: every entry, names as sent
+			v := pick(r, []string{"ARGS", "ARGS_GET", "ARGS_NAMES", "ARGS_GET_NAMES", "ARGS_POST"})
+			l = Link{Items: []Item{{Var: v, Sel: Sel{Kind: "all"}}}, Op: "unconditionalMatch"}
+			if r.Intn(2) == 0 {
+				l.Tfs = []string{pick(r, []string{"length", "hexEncode", "urlEncode"})}
+			}
+		}
+		if r.Intn(5) == 0 {
+			l.Items = append(l.Items, Item{Var: "ARGS_COMBINED_SIZE", Sel: Sel{Kind: "all"}})
+		}
+		rules = append(rules, Rule{ID: id, Phase: ph, Links: []Link{l}})
+	}
+	return rules, q
+}
+
 // every string a transformation of this request can be applied to first
 func requestStrings(q *Request) []string {
 	uri, query, hdrs, _ := q.wire()
@@ -1563,6 +1621,11 @@ func Run(cfg vh.Config) (*vh.Result, error) {
 			rules, rms := genRemovalRules(rng, q)
 			rn.addTxFull(rules, rms, q, "", "", "")
 			res.InputDistribution["rule_removal_focused"]++
+		}
+		for i := 0; i < cfg.Pick(200, 2500); i++ {
+			rules, q := genSizeCase(rng)
+			rn.addTx(rules, q, "")
+			res.InputDistribution["size_count_focused"]++
 		}
 		if cfg.Thorough() {
 			rn.exhaustive()
